@@ -255,6 +255,10 @@ class RpFamily:
         for nm in ("determinism", "average_diaglength", "diag_entropy", "laminarity", "trapping_time",
                    "vert_entropy"):
             c.append((nm + "(3)", lambda nm=nm: getattr(obj, nm)(3)))
+        # twins of the CURRENT recurrence matrix (plain / cross plots only define them for square matrices)
+        if type(obj).__name__ in ("RecurrencePlot", "RecurrenceNetwork"):
+            c.append(("twins(1)~count", lambda: [len(t) for t in obj.twins(min_dist=1)[:obj.N]]))
+            c.append(("recurrence_probability(1)", lambda: obj.recurrence_probability(1)))
         if self.network:
             c += [("adjacency", lambda: obj.adjacency), ("n_links", lambda: obj.n_links),
                   ("link_density", lambda: obj.link_density)]
